@@ -57,6 +57,33 @@ fn main() {
             posprops::run(Which::C17, &tier, seed, &out);
             0
         }
+        "c10" => {
+            props::c10::run(&tier, seed, &out);
+            0
+        }
+        "c10-one" => props::c10::replay_slider(&arg(&args, "--piece").unwrap(), arg(&args, "--sq").unwrap().parse().unwrap(), arg(&args, "--occ").unwrap().parse().unwrap()),
+        "c10-between" => props::c10::replay_between(arg(&args, "--from").unwrap().parse().unwrap(), arg(&args, "--to").unwrap().parse().unwrap()),
+        "c11" => {
+            props::c11::run(&tier, seed, &out);
+            0
+        }
+        "c11-one" => props::c11::replay_one(&arg(&args, "--fen").unwrap(), seed),
+        "c14" => {
+            props::c14::run(&tier, seed, &out);
+            0
+        }
+        "c14-one" => props::c14::replay_one(&arg(&args, "--fen").unwrap()),
+        "c14-seq" => props::c14::replay_seq(arg(&args, "--a").unwrap().parse().unwrap(), arg(&args, "--b").unwrap().parse().unwrap(), arg(&args, "--c").unwrap().parse().unwrap()),
+        "c12" => {
+            props::c12::run(&tier, seed, &out);
+            0
+        }
+        "c12-one" => props::c12::replay(&arg(&args, "--stm").unwrap(), &arg(&args, "--line").unwrap(), arg(&args, "--own-time").unwrap().parse().unwrap(), arg(&args, "--own-inc").unwrap().parse().unwrap()),
+        "c15" => {
+            props::c15::run(&tier, seed, &out);
+            0
+        }
+        "c15-one" => props::c15::replay(&arg(&args, "--seq").unwrap(), seed),
         "c01-one" => posprops::replay_one(Which::C01, &arg(&args, "--fen").unwrap()),
         "c02-one" => posprops::replay_one(Which::C02, &arg(&args, "--fen").unwrap()),
         "c17-one" => posprops::replay_one(Which::C17, &arg(&args, "--fen").unwrap()),
